@@ -616,16 +616,26 @@ impl Wal {
 
         let mut segment = self.current_segment.lock();
 
+        // Drain the writer first: frames still buffered (NORMAL/OFF sync modes, no_sync
+        // batches) belong to the log being discarded and must not reach the file afterwards.
+        segment
+            .writer
+            .flush()
+            .wrap_err("failed to flush WAL segment before truncate")?;
+
         segment
             .writer
             .get_mut()
             .set_len(0)
             .wrap_err("failed to truncate WAL segment file")?;
 
+        // set_len does not move the file cursor; without the rewind the next frame would be
+        // written at the old end of file, behind a hole of zero bytes.
         segment
             .writer
-            .flush()
-            .wrap_err("failed to flush WAL segment after truncate")?;
+            .get_mut()
+            .seek(SeekFrom::Start(0))
+            .wrap_err("failed to rewind WAL segment after truncate")?;
 
         segment.offset = 0;
 
